@@ -99,6 +99,29 @@ void iter_laws(std::string const& fam, It b, It e, idx n, bool deref_ok, At&& at
 			if(deref_ok) { ++g_laws; if(it_addr<D>(c) != at(p - 1)) { B("-- previous element", "p=" + S(p)); } }
 			++c; ++g_laws; if(!(c == it)) { B("-- then ++ is identity", "p=" + S(p)); }
 		}
+		// route independence: an iterator's behaviour may depend only on its position, not on how it got there (an iterator can carry redundant state: linear position + index tuple).
+		// The same position is reached by stepping from begin, by stepping back from end, by e-(n-p), and by stepping PAST it to end and jumping back; each must then behave like b+p.
+		{
+			It r1 = b; for(idx q = 0; q < p; ++q) { ++r1; }
+			It r2 = e; for(idx q = n; q > p; --q) { --r2; }
+			It r3 = e - (n - p);
+			It r4 = b; for(idx q = 0; q < n; ++q) { ++r4; } r4 -= (n - p);
+			It r5 = e; for(idx q = n; q > 0; --q) { --r5; } r5 += p;
+			It const routes[5] = {r1, r2, r3, r4, r5};
+			static char const* const rname[5] = {"++ from begin", "-- from end", "end-(n-p)", "++ to end then -=", "-- to begin then +="};
+			for(int ri = 0; ri < 5; ++ri) {
+				It const& r = routes[ri];
+				++g_laws; if(!(r == it) || r - b != p) { B(std::string("route independence: position reached by ") + rname[ri] + " compares equal to begin+p", "p=" + S(p)); continue; }
+				if(!deref_ok) { continue; }
+				if(p < n) { ++g_laws; if(it_addr<D>(r) != at(p)) { B(std::string("route independence: *it after ") + rname[ri], "p=" + S(p)); } }
+				for(idx k = -p; k < n - p; ++k) {
+					It j = r + k; ++g_laws; if(it_addr<D>(j) != at(p + k)) { B(std::string("route independence: *(it+k) after ") + rname[ri], "p=" + S(p) + " k=" + S(k)); break; }
+					It m2 = r; m2 += k; ++g_laws; if(it_addr<D>(m2) != at(p + k)) { B(std::string("route independence: it+=k after ") + rname[ri], "p=" + S(p) + " k=" + S(k)); break; }
+					if constexpr(D == 1) { ++g_laws; if(std::addressof(r[k]) != at(p + k)) { B(std::string("route independence: it[k] after ") + rname[ri], "p=" + S(p) + " k=" + S(k)); break; } }
+					else { ++g_laws; if(rawp(r[k].base()) != at(p + k)) { B(std::string("route independence: it[k] after ") + rname[ri], "p=" + S(p) + " k=" + S(k)); break; } }
+				}
+			}
+		}
 	}
 }
 
@@ -161,6 +184,26 @@ std::vector<Bad> check_iters(V&& v, MView const& m, int const* data) {
 			auto fe = aux().elements().begin() + 3; using It = decltype(er.begin());
 			if constexpr(std::is_same_v<It, decltype(fe)>) { iter_laws<1>("elements", er.begin(), er.end(), N, true, [&](idx k) { return const_cast<int*>(at(k)); }, bad, &fe); }
 			else { iter_laws<1>("elements", er.begin(), er.end(), N, true, [&](idx k) { return const_cast<int*>(at(k)); }, bad); }
+		}
+		// assignment over an iterator of ANOTHER view of the SAME storage at the SAME position (same origin pointer, other layout): the target must take over the source's layout too
+		if constexpr(D >= 2) {
+			if(N > 0) {
+				mc::cur_phase("elements(): assignment across views of the same storage");
+				auto&& rv = v.rotated(); auto&& rr = rv.elements(); using It = decltype(er.begin());
+				if constexpr(std::is_same_v<It, decltype(rr.begin())>) {
+					for(idx p = 0; p <= N; ++p) {
+						It ft = rr.begin() + p; It jt = er.begin() + p;
+						ft = jt;
+						bool okp = true;
+						for(idx k = -p; k < N - p && okp; ++k) {
+							++g_laws; if(std::addressof(*(ft + k)) != at(p + k) || std::addressof(ft[k]) != at(p + k)) { okp = false; bad.push_back(Bad{"elements", "iterator assigned over an iterator of another view of the same storage at the same position", "p=" + std::to_string(p) + " k=" + std::to_string(k)}); }
+						}
+						if(okp && p + 1 < N) { It f2 = ft; ++f2; ++g_laws; if(std::addressof(*f2) != at(p + 1)) { bad.push_back(Bad{"elements", "iterator assigned over an iterator of another view of the same storage: ++", "p=" + std::to_string(p)}); } }
+						if(okp && p >= 1) { It f3 = ft; --f3; ++g_laws; if(std::addressof(*f3) != at(p - 1)) { bad.push_back(Bad{"elements", "iterator assigned over an iterator of another view of the same storage: --", "p=" + std::to_string(p)}); } }
+						if(!okp) { break; }
+					}
+				}
+			}
 		}
 		mc::cur_phase("celements");
 		{
